@@ -11,6 +11,7 @@ import (
 	"sort"
 	"strings"
 	"sync"
+	"time"
 
 	"github.com/KafScale/platform/internal/verif/enum"
 	"github.com/KafScale/platform/internal/verif/fakes3"
@@ -275,3 +276,8 @@ func vSameBatch(stored, sent []byte) bool {
 }
 
 func bg() context.Context { return context.Background() }
+
+// vCalm lets the S3 health window (60 s) pass on the bubble's virtual clock, so that a
+// request issued by an oracle is not answered with a (legitimate, retriable)
+// backpressure code caused by earlier injected or not-found S3 results.
+func vCalm() { time.Sleep(5 * time.Minute) }
